@@ -323,6 +323,7 @@ var integer64 = []*instructionType{
 		opcode:       opcodeShiftImm(false, 6, 0b001, 0b0010011),
 		inputRegCnt:  1,
 		hasOutputReg: true,
+		immediate:    immTypeShamt,
 		effects: func(i instruction) []expr.Effect {
 			val := regImmShift(binOpFunc(expr.Lsh), i, 6, width64)
 			return []expr.Effect{regStore(val, i, width64)}
@@ -332,6 +333,7 @@ var integer64 = []*instructionType{
 		opcode:       opcodeShiftImm(false, 6, 0b101, 0b0010011),
 		inputRegCnt:  1,
 		hasOutputReg: true,
+		immediate:    immTypeShamt,
 		effects: func(i instruction) []expr.Effect {
 			val := regImmShift(binOpFunc(expr.Rsh), i, 6, width64)
 			return []expr.Effect{regStore(val, i, width64)}
@@ -341,6 +343,7 @@ var integer64 = []*instructionType{
 		opcode:       opcodeShiftImm(true, 6, 0b101, 0b0010011),
 		inputRegCnt:  1,
 		hasOutputReg: true,
+		immediate:    immTypeShamt,
 		effects: func(i instruction) []expr.Effect {
 			val := regImmShift(exprtools.RshA, i, 6, width64)
 			return []expr.Effect{regStore(val, i, width64)}
@@ -606,6 +609,7 @@ var integer64 = []*instructionType{
 		opcode:       opcodeShiftImm(false, 5, 0b001, 0b0011011),
 		inputRegCnt:  1,
 		hasOutputReg: true,
+		immediate:    immTypeShamt,
 		effects: func(i instruction) []expr.Effect {
 			val := sext32To64(regImmShift(binOpFunc(expr.Lsh), i, 5, width32))
 			return []expr.Effect{regStore(val, i, width64)}
@@ -615,6 +619,7 @@ var integer64 = []*instructionType{
 		opcode:       opcodeShiftImm(false, 5, 0b101, 0b0011011),
 		inputRegCnt:  1,
 		hasOutputReg: true,
+		immediate:    immTypeShamt,
 		effects: func(i instruction) []expr.Effect {
 			val := sext32To64(regImmShift(binOpFunc(expr.Rsh), i, 5, width32))
 			return []expr.Effect{regStore(val, i, width64)}
@@ -624,6 +629,7 @@ var integer64 = []*instructionType{
 		opcode:       opcodeShiftImm(true, 5, 0b101, 0b0011011),
 		inputRegCnt:  1,
 		hasOutputReg: true,
+		immediate:    immTypeShamt,
 		effects: func(i instruction) []expr.Effect {
 			val := sext32To64(regImmShift(exprtools.RshA, i, 5, width32))
 			return []expr.Effect{regStore(val, i, width64)}
